@@ -444,7 +444,7 @@ func c20GenServe(t *rapid.T) c20Serve {
 		case 1:
 			tk.NilNS = rapid.SampledFrom(times).Draw(t, "nil")
 		case 2:
-			tk.StopNS = rapid.SampledFrom([]int64{1, s, 30 * s}).Draw(t, "stop")
+			tk.StopNS = rapid.SampledFrom([]int64{1, s, 5*s + 1, 11 * s, 30 * s, 31 * s, 91 * s, 301 * s}).Draw(t, "stop")
 			tk.StopErr = rapid.IntRange(0, 3).Draw(t, "stoperr") == 0
 		}
 		switch rapid.IntRange(0, 3).Draw(t, "ready") {
